@@ -151,10 +151,40 @@ def run(tier):
                     ck.ob(f"C20/agreement/{t}/{d}", 'UNDECIDED', f"bound {e1:.3g} + {e3:.3g} not below {bud}")
     except Unsupported as ex:
         ck.ob('C20/curves', 'UNDECIDED', f"analysis lost: {ex}")
+    # (f) XYB and HSL in the libm build, and agreement of the two builds on them
+    try:
+        from .xyb import check_c04, check_c05, forward_agreement
+        from .c14 import canon as canon_
+        from .c17 import kernel as px_kernel
+        from engine.check import Check as _Check
+        c1, c3 = Ctx('K1'), Ctx('K3')
+        check_c04(ck, c3, 'K3', tier)             # C04's budget with the libm cube root (A-libm: one ulp)
+        check_c05(ck, c3, 'K3', tier)                  # C05's budget likewise
+        ck.count('xyb_libm')
+        H1 = realerr.Helpers(Ctx('K1', 'yuvxyb_math')); H3 = realerr.Helpers(Ctx('K3', 'yuvxyb_math'))
+        if H1.cbrt_rel is None or H3.cbrt_rel is None:
+            ck.ob('C20/agreement/xyb-forward', 'UNDECIDED', 'accuracy of the cube root helper not certified in both builds')
+        else:
+            forward_agreement(ck, c1, c3, H1.cbrt_rel, H3.cbrt_rel)
+        # conversions that use no helper at all: the same expression in both builds means bit-identical results
+        for conv, nm in (('Xyb->LinearRgb', 'xyb.data'), ('LinearRgb->Hsl', 'linearrgb.data'), ('Hsl->LinearRgb', 'hsl.data')):
+            v1, _ = px_kernel(c1, conv, nm); v3, _ = px_kernel(c3, conv, nm)
+            same = len(v1.fields) == len(v3.fields) and canon_(list(v1.fields)) == canon_(list(v3.fields))
+            helper = any(n_.op == 'app' or n_.op.startswith('call:libm_') for vv in (v1, v3) for f_ in vv.fields for n_ in X.walk(f_))
+            ck.count('helper_free_kernels', 0 if helper else 1)
+            if helper:
+                # (Xyb->LinearRgb uses cbrtf(-bias) as a constant: the two builds' constants may differ by two ulps and every
+                #  rounding after it may fall differently: only "both within the C05 bound of the ideal value" is known)
+                ck.note(f"agreement_not_decided/{conv}", 'the kernel applies a math helper (to a constant): results of the two builds are not bit-identical; both satisfy the C05 bound')
+                continue
+            ck.ob(f"C20/agreement/{conv}", 'PROVED' if same else 'UNDECIDED',
+                  'the per-pixel kernel is the same expression in both builds and contains no powf/expf/cbrtf: bit-identical results' if same else 'the kernels of the two builds differ')
+    except Unsupported as ex:
+        ck.ob('C20/xyb-hsl-libm', 'UNDECIDED', f"analysis lost: {ex}")
     # budgets without approximation in the FMA build (a reduced sweep; the full one is the thorough tier of C01/C02/C08)
     from . import c01, c02, c08
     for mod in (c01, c02, c08):
         mod.analyse(ck, 'quick' if tier == 'quick' else 'thorough', ('K2',))
-    ck.floor('helpers', 6); ck.floor('fma_siblings', 3); ck.floor('kernels_compared', 28); ck.floor('agreement', 26)
-    ck.note('not_decided', ['agreement of the two builds for the XYB / HSL conversions (cbrtf within 1 ulp of libm cbrt: C18; the conversions around it are the same expressions)', 'helpers agree with libm to 2 ulp in the libm build: they ARE the libm calls (cfg clause), A-libm'])
+    ck.floor('helpers', 6); ck.floor('fma_siblings', 3); ck.floor('kernels_compared', 28); ck.floor('agreement', 26); ck.floor('xyb_libm', 1); ck.floor('helper_free_kernels', 2)
+    ck.note('not_decided', ['PQ to_linear within 5e-5 in the libm build and its agreement clause (A-libm allows a full ulp)', 'helpers agree with libm to 2 ulp in the libm build: they ARE the libm calls (cfg clause), A-libm'])
     return ck.finish()
